@@ -1103,6 +1103,8 @@ class SCFGIO:
 
         scfg_graph = {}
         seen = set()
+        # Names recorded for the region that holds the regions of this level.
+        parent_names = set()
         # The queue must be a sorted FIFO to maintain reproducible insertion
         # order for the SCFG.
         queue = deque(sorted(curr_heads))
@@ -1131,6 +1133,8 @@ class SCFGIO:
                     block_info["exiting"],
                 )
                 block_info.pop("contains")
+                # The parent is recorded by name, the object is restored below.
+                parent_names.add(block_info.pop("parent_region", None))
 
             block_class = block_type_names[block_type]
             block = block_class(
@@ -1139,12 +1143,28 @@ class SCFGIO:
                 _jump_targets=block_edges,
                 **block_info,
             )
+            if isinstance(block, RegionBlock):
+                # The sub-graph and the regions it holds point back to it.
+                assert block.subregion is not None
+                object.__setattr__(block.subregion, "region", block)
+                for inner in block.subregion.graph.values():
+                    if isinstance(inner, RegionBlock):
+                        object.__setattr__(inner, "parent_region", block)
 
             scfg_graph[current_name] = block
             if current_name != exiting:
                 queue.extend(edges[current_name])
 
         scfg = SCFG(scfg_graph, name_gen=name_gen)
+        # Regions of this level belong to the region that this graph
+        # represents (replaced by the enclosing region, if there is one). It
+        # keeps the name under which it was recorded.
+        parent_names.discard(None)
+        if len(parent_names) == 1:
+            object.__setattr__(scfg.region, "name", parent_names.pop())
+        for inner in scfg_graph.values():
+            if isinstance(inner, RegionBlock):
+                object.__setattr__(inner, "parent_region", scfg.region)
         return scfg
 
     @staticmethod
@@ -1180,6 +1200,8 @@ class SCFGIO:
         for b in sorted(blocks):
             ys += indent(f"'{b}':\n", " " * 8)
             for k, v in blocks[b].items():
+                # Quote strings, a name may look like a number.
+                v = repr(v) if isinstance(v, str) else v
                 ys += indent(f"{k}: {v}\n", " " * 12)
 
         ys += "\nedges:\n"
@@ -1223,10 +1245,9 @@ class SCFGIO:
                 raise TypeError("Block type not found.")
 
         seen = set()
-        q: Set[Tuple[str, BasicBlock]] = set()
-        # Order of elements doesn't matter since they're going to
-        # be sorted at the end.
-        q.update(scfg.graph.items())
+        # A list, since blocks holding dictionaries are not hashable. The
+        # order of visiting doesn't matter, the result is keyed by name.
+        q: List[Tuple[str, BasicBlock]] = list(scfg.graph.items())
 
         while q:
             key, value = q.pop()
@@ -1239,7 +1260,7 @@ class SCFGIO:
             if isinstance(value, RegionBlock):
                 assert value.subregion is not None
                 assert value.parent_region is not None
-                q.update(value.subregion.graph.items())
+                q.extend(value.subregion.graph.items())
                 blocks[key]["kind"] = value.kind
                 blocks[key]["contains"] = sorted(
                     [idx.name for idx in value.subregion.graph.values()]
@@ -1255,8 +1276,9 @@ class SCFGIO:
             elif isinstance(value, PythonBytecodeBlock):
                 blocks[key]["begin"] = value.begin
                 blocks[key]["end"] = value.end
-            edges[key] = sorted([i for i in value._jump_targets])
-            backedges[key] = sorted([i for i in value.backedges])
+            # The order of the jump targets is significant.
+            edges[key] = [i for i in value._jump_targets]
+            backedges[key] = [i for i in value.backedges]
 
         graph_dict = {"blocks": blocks, "edges": edges, "backedges": backedges}
 
